@@ -24,7 +24,7 @@ rm -f $ddir/$dfile
 pkgs=$(git diff --name-only | xargs -n1 dirname | sort -u | sed 's|^|./|')
 exist=ok
 for p in $pkgs; do
-  case $p in ./control*) go test -tags dae_stub_ebpf -vet=off -count=1 -run XXX_NONE $p >/dev/null 2>&1 || exist=FAIL;; *) go test -vet=off -count=1 $p >/dev/null 2>&1 || exist=FAIL;; esac
+  case $p in ./control*|./cmd*) go test -tags dae_stub_ebpf -vet=off -count=1 -run XXX_NONE $p >/dev/null 2>&1 || exist=FAIL;; *) go test -vet=off -count=1 $p >/dev/null 2>&1 || exist=FAIL;; esac
 done
 echo "$id $name: demo-on-clean=$c1 demo-with-change=$c2 existing-tests=$exist"
 if [ $c1 = PASS ] && [ $c2 = FAIL ] && [ $exist = ok ]; then
